@@ -97,7 +97,7 @@ theorem ptrmap_iff (D E : Nat) (p n : Nat) (hE : 0 < E) :
 /-! non-vacuity -/
 example : localPayload 1024 ((1024 : Int) - 35) 5000 = (920, true, 103) := by decide
 example : calcExpectedOverflow 5000 1024 = some (5, 920) := by decide
-example : ptrmapPlan 300 512 = .ok [(2, 102), (105, 102), (208, 92)] := by decide
+example : ptrmapPlan 300 512 = .ok [(2, 102), (105, 102), (208, 92)] := by rfl
 example : Spec.ptrmapPages 300 102 = [(2, 102), (105, 102), (208, 92)] := by decide
 
 end SqliteDissect.Properties.C16
